@@ -8,6 +8,7 @@
 import LouModel.Table
 import LouModel.Pass
 import LouModel.Forward
+import LouModel.ForwardCtx
 import LouModel.Compile
 import LouModel.Backward
 import LouModel.OneToOne
@@ -79,7 +80,19 @@ def handle? (reg : List (String × Table)) (toks : List String) : Option String 
       let input ← parseWide inh
       let cur : Option Int ← (if cursor == "-" then some none else cursor.toInt?.map some)
       match Fwd.unsupported t with
-      | some why => pure s!"UNSUPPORTED {why}"
+      | some why =>
+        -- outside F0: the main pass with context rules (ForwardCtx.lean), as a stage of any table
+        match FwdC.unsupportedC t with
+        | some _ => pure s!"UNSUPPORTED {why}"
+        | none =>
+          if hasBit mode mCompbrlAtCursor || hasBit mode mCompbrlLeftCursor then pure "UNSUPPORTED compbrl mode" else
+          let (cp, cs) : Int × Int := match cur with
+            | some c => if c ≥ 0 then (c, 0) else (-1, 1)
+            | none => (-1, 1)
+          match FwdC.translateC t mode (input.takeWhile (· != 0)) cap cp cs with
+          | .done r => pure s!"P {showWide r.out} {showInts r.map} {r.realInlen} {r.cpos} {r.cstat} rules={showRules r.applied}"
+          | .fuel => pure "FUEL"
+          | .unsupported => pure "UNSUPPORTED instruction outside the fragment"
       | none =>
         if hasBit mode mCompbrlAtCursor || hasBit mode mCompbrlLeftCursor then pure "UNSUPPORTED compbrl mode" else
         let (cp, cs) : Int × Int := match cur with
